@@ -57,6 +57,16 @@ class C07(Property):
         ctx.cls(spec["mode"], method, f"dim{spec['dim']}", "grid" if grid is not None else "nogrid")
         links = set()
         first_of_track = set()
+        if method == "overlap":
+            # clause 1 holds for every pair of consecutive entries of a track, whatever frames they come from (two entries from
+            # the same frame never overlap here, because frames with within-frame overlap were set aside above)
+            for e in ent:
+                for a, b in zip(e, e[1:]):
+                    pa, pb = frames[a[0]][a[1]], frames[b[0]][b[1]]
+                    d_ab = geom.dist(pa["position"], pb["position"])
+                    ctx.require(d_ab < pa["radius"] + pb["radius"] + tol, "overlap:consecutive-without-overlap", f"track entries (frame {a[0]}, droplet {a[1]}) -> (frame {b[0]}, droplet {b[1]}) do not overlap: distance {d_ab} >= {pa['radius'] + pb['radius']}")
+            if ctx.violations:
+                return
         for e in ent:
             first_of_track.add(e[0])
             for a, b in zip(e, e[1:]):
